@@ -60,6 +60,8 @@ def random_split(rng, n):
         k = min(k, n)
         parts.append(k)
         n -= k
+        if n > 0 and rng.random() < 0.1:
+            parts.append(0)        # an empty piece between two pieces is a legal write() too
     return parts
 
 
